@@ -9,6 +9,8 @@
 (*          "test" (the storage that `apply` attaches to a test function)  *)
 (*      f = "register"  @storage.register().<chain>   class Provider       *)
 (*          "call"      @storage().<chain>            class Provider       *)
+(*          "keyed"     @storage(cache_by_key=f).<chain>   (cached per key)*)
+(*          "nocache"   @storage(refresh_interval=None).<chain>            *)
 (*          "requests"  storage.set_from_requests(auth).<chain>            *)
 (*          "apply"     @schema.auth(Provider).<chain> on the test         *)
 (*      c = the chain written in that registration ("-" = none)            *)
@@ -29,7 +31,9 @@ CONSTANTS MaxAuth,     \* maximal number of provider registrations
           MaxLen       \* maximal number of events
 
 AScopes == {"global", "schema", "test"}
-AForms(s) == IF s = "test" THEN {"apply"} ELSE IF Rich THEN {"register", "call", "requests"} ELSE {"call", "requests"}
+AForms(s) == IF s = "test" THEN {"apply"}
+             ELSE IF Rich THEN {"register", "call", "keyed", "nocache", "requests"} ELSE {"call", "keyed", "requests"}
+AChains == IF Rich THEN ChainIds ELSE {"C2", "C3"}
 ARegEvent(s, f, c) == [ev |-> "areg", s |-> s, f |-> f, c |-> c]
 AUnregEvent(s)     == [ev |-> "aunreg", s |-> s, f |-> "-", c |-> "-"]
 
@@ -67,7 +71,7 @@ AuthUnregister(s) ==
   /\ ahist' = Append(ahist, AUnregEvent(s))
   /\ providers' = [providers EXCEPT ![s] = << >>]
   /\ UNCHANGED aorder
-ANext == \/ \E s \in AScopes, f \in {"register", "call", "requests", "apply"}, c \in ChainIds \cup {"-"} : AuthRegister(s, f, c)
+ANext == \/ \E s \in AScopes, f \in {"register", "call", "keyed", "nocache", "requests", "apply"}, c \in AChains \cup {"-"} : AuthRegister(s, f, c)
          \/ \E s \in AScopes : AuthUnregister(s)
 ASpec == AInit /\ [][ANext]_avars
 
